@@ -9,7 +9,8 @@
    loader, equality) has no Coq model — yaml.v3, encoding/json and viper are not modelled — and is decided by
    differential testing in the harness only. *)
 From Coq Require Import List NArith ZArith Bool.
-From Verif Require Import Base.Hex Model.ConfigValidate Proofs.C37.
+From Verif Require Import Base.Hex Model.ConfigValidate Proofs.C37 Proofs.C37_shape.
+From Verif Require Model.ConfigShape Gen.ConfigShape.
 Import ListNotations.
 
 (* "reports an error exactly when a documented constraint is broken", for every configuration *)
@@ -85,3 +86,20 @@ Print Assumptions C37_refuted_forced.
 Example C37_nonvacuous :
   ~ Broken base_cfg /\ (exists c, Broken c /\ validate c = [CompressionLevel; CompressionThreshold]).
 Proof. exact Proofs.C37.C37_nonvacuous. Qed.
+
+(* Translator obligations (Gen/ConfigShape.v is regenerated from /repo before every build):
+   the validators' source still has exactly the error sites, warning sites, validator calls, returns and
+   continues, under the same guard conditions and in the same order, as the text the model was transcribed
+   from — optionally with fixes/C37-1.diff and/or fixes/C37-2.diff applied ... *)
+Theorem C37_source_shape : exists fix1 fix2 : bool,
+  Verif.Gen.ConfigShape.sites = Verif.Model.ConfigShape.expected_sites fix1 fix2.
+Proof. exact shape_matches. Qed.
+Print Assumptions C37_source_shape.
+
+(* ... and every clause id the transcription of the code can report names one of those error sites. *)
+Theorem C37_clauses_are_sites : forall c : cfg,
+  forallb (fun cl => existsb (String.eqb (clause_name cl))
+                       (Verif.Model.ConfigShape.error_ids (Verif.Model.ConfigShape.expected_sites false false)))
+          (impl_validate c) = true.
+Proof. exact impl_clauses_are_sites. Qed.
+Print Assumptions C37_clauses_are_sites.
